@@ -70,6 +70,9 @@ def run_vh(args, timeout=600, check=True, env=None, bin="vh"):
                            stderr=subprocess.PIPE, text=True, timeout=timeout, env=e)
     except subprocess.TimeoutExpired:
         raise ToolError("harness timed out: vh %s" % " ".join(map(str, args)))
+    if p.returncode == 98 and "RUNAWAY" in p.stderr:
+        # trace.rs: one scenario produced more than 1.5 million records (a livelock)
+        raise HarnessHang("%s %s: %s" % (bin, " ".join(map(str, args)), p.stderr.strip().splitlines()[-1]))
     if p.returncode == 97 and "OPENHANG" in p.stderr:
         # session.rs: Connection::open never returned over the mock transport
         raise HarnessHang("%s %s: %s" % (bin, " ".join(map(str, args)), p.stderr.strip().splitlines()[-1]))
